@@ -288,7 +288,7 @@ func (d *DStarLite) MoveTo(n graph.Node) {
 	// to date; Step moves d.s without touching either, so the
 	// movement to account for starts at d.last, not at d.s.
 	s := d.model.Node(n.ID()).(*dStarLiteNode)
-	d.keyModifier += d.heuristic(d.last, s)
+	d.keyModifier += d.heuristic(d.last.Node, s.Node)
 	d.last = s
 	d.s = s
 	// The search so far stopped as soon as the previous location
@@ -318,7 +318,7 @@ func (d *DStarLite) UpdateWorld(changes []graph.Edge) {
 	if len(changes) == 0 {
 		return
 	}
-	d.keyModifier += d.heuristic(d.last, d.s)
+	d.keyModifier += d.heuristic(d.last.Node, d.s.Node)
 	d.last = d.s
 	for _, e := range changes {
 		from := e.From()
